@@ -1,7 +1,7 @@
 """C02 — responses do not depend on read segmentation (DESIGN.md §4/C02)."""
 from ..callgraph import norm
 from ..cfg import Cfg, reach
-from ..common import (body_by_name, callee_names, callgraph, family, last_named_field, logic_body,
+from ..common import (body_by_name, callee_names, callgraph, family, last_named_field, logic_body, logic_or_inlined,
                       ref_field_of_local, switch_atom, incomplete_tests)
 from ..facts import callee, const_int, op_const, op_local, op_place
 from ..flow import Flow, identity_through
@@ -162,12 +162,38 @@ def consume_rule(rep, prog, cfg):
 
 def conn_bodies(prog):
     """logic bodies of the four connection functions: {flavour/op: body}"""
+    cache = getattr(prog, "_conn_bodies", None)
+    if cache is not None:
+        return cache
     out = {}
-    out["blocking/receive"] = logic_body(prog, "mpd_protocol::connection::Connection::receive", {PARSE})
-    out["blocking/connect"] = logic_body(prog, "mpd_protocol::connection::Connection::connect", {"mpd_protocol::parser::greeting"})
-    out["async/receive"] = logic_body(prog, "mpd_protocol::connection::AsyncConnection::receive", {PARSE})
-    out["async/connect"] = logic_body(prog, "mpd_protocol::connection::AsyncConnection::connect", {"mpd_protocol::parser::greeting"})
+    out["blocking/receive"] = logic_or_inlined(prog, "mpd_protocol::connection::Connection::receive", {PARSE})
+    out["blocking/connect"] = logic_or_inlined(prog, "mpd_protocol::connection::Connection::connect", {"mpd_protocol::parser::greeting"})
+    out["async/receive"] = logic_or_inlined(prog, "mpd_protocol::connection::AsyncConnection::receive", {PARSE})
+    out["async/connect"] = logic_or_inlined(prog, "mpd_protocol::connection::AsyncConnection::connect", {"mpd_protocol::parser::greeting"})
+    prog._conn_bodies = out
     return out
+
+
+def builder_scope_rule(rep, prog, cfg):
+    """The response under construction must survive between two reads of one receive(): the ResponseBuilder is created once per
+    call, outside the loop that reads — creating it inside (directly or in a helper called per read) throws away the lines
+    already consumed from the buffer whenever a response arrives in more than one read."""
+    from ..cfg import sccs
+    from .C09 import is_await_cycle
+    rule = "C02.persist"
+    NEW = "mpd_protocol::response::ResponseBuilder::new"
+    lb = conn_bodies(prog)
+    for name in ("blocking/receive", "async/receive"):
+        b = lb.get(name)
+        if b is None or (cfg == "K3" and name.startswith("async")):
+            continue
+        g = Cfg(b)
+        news = [bb for bb, t in b.calls() if NEW in callee_names(t)]
+        reads = {bb for bb, t in b.calls() if any(n in READS for n in callee_names(t))}
+        in_loop = [bb for bb in news if any(bb in l and (l & reads) and not is_await_cycle(b, l) for l in g.loops)]
+        rep.check(bool(news) and not in_loop, rule, "%s/%s builder created once per call, outside the read loop" % (cfg, name), b.loc(b.span),
+                  "%s creates the ResponseBuilder inside the loop that reads (or does not create one): lines of a response consumed before a read "
+                  "are dropped when the rest arrives with the next read" % name)
 
 
 DISCARDING = ("bytes::bytes_mut::BytesMut::clear", "bytes::bytes_mut::BytesMut::truncate", "bytes::bytes_mut::BytesMut::split_to",
@@ -598,6 +624,7 @@ def run(rep, progs, tier):
         streaming_rule(rep, prog, cfg)
         consume_rule(rep, prog, cfg)
         persist_rule(rep, prog, cfg)
+        builder_scope_rule(rep, prog, cfg)
         resize_rule(rep, prog, cfg)
         siblings_rule(rep, prog, cfg)
         read_then_parse_rule(rep, prog, cfg)
